@@ -41,6 +41,7 @@ type schedRun struct {
 	sim          *simrt.Sim
 	startErr     *StartError
 	finalPre     map[string][]OutRow // after Shutdown returned (C35)
+	finalStart   int                 // fs log index when the final queries began
 	finalErr     map[string]error
 	shutErr      error
 	shutAt       int // fs log index when Shutdown returned
@@ -212,6 +213,7 @@ func runSched(w *Workload, c schedCfg, seed uint64) *schedRun {
 				simrt.Sleep(100 * time.Millisecond)
 			}
 			sr.stuckClients = wg.Count()
+			sr.finalStart = fs.Marker("final-queries")
 			sr.finalPre = map[string][]OutRow{}
 			sr.finalErr = map[string]error{}
 			for _, b := range w.Buckets {
@@ -256,6 +258,9 @@ func schedWorkload(seed uint64, tier string, varPct int) *Workload {
 	w.Node.WALRotateInterval = 1 + r.Intn(3)
 	w.Sim = simrt.Config{Seed: seed ^ 0x1357, PreemptPct: []int{2, 10, 30, 30, 60}[r.Intn(5)], ShuffleMap: true}
 	w.Knobs["WriteChannelCommandDepth"] = []int{1024, 4096, 64}[r.Intn(3)]
+	// in 3 runs of 5 tasks can be "slow": the clock may jump to the next timer
+	// deadline in the middle of a request, so ticks land inside requests
+	w.Sim.SlowPermille = []int{0, 0, 5, 20, 60}[r.Intn(5)]
 	return w
 }
 
